@@ -441,6 +441,6 @@ def stiff_verdict(cfg):
 
 
 SUBS = [
-    HistorySub("fixed_point", config(), RULES, Interp, quick=96, thorough=2000, steps=(8, 16)),
-    Sub("stiff_limit", stiff_cfg(), stiff_verdict, quick=48, thorough=800),
+    HistorySub("fixed_point", config(), RULES, Interp, quick=96, thorough=1000, steps=(8, 16)),
+    Sub("stiff_limit", stiff_cfg(), stiff_verdict, quick=48, thorough=400),
 ]
